@@ -81,48 +81,23 @@ def check(prog, res, tier):
                          func_where(tfi), "f'{rightmost_11}{key_table_index}{pin[:4]}'", chk_t,
                          sample=lambda ps: [repr(tsp_of(p)) for p in ps][:2], unknown_ok=benign_unknown))
 
-    # ---- C14.b result width constants
+    # ---- C14.b decimalisation: first four decimal digits, then letters a-f as 0-5, on closed forms (scan.py)
     pfi = prog.func('pinblock.calculate_pvv')
-    guards, bounds = [], []
-
-    def const_of(node):
-        if isinstance(node, ast.Constant):
-            return node
-        if isinstance(node, ast.Name):
-            r = prog.resolve_name(pfi.module, node.id)
-            if r is not None and r[0] == 'const' and isinstance(r[1], ast.Constant):
-                return r[1]
-            # a local bound once to a literal
-            for m in ast.walk(pfi.node):
-                if isinstance(m, ast.Assign) and len(m.targets) == 1 and isinstance(m.targets[0], ast.Name) \
-                        and m.targets[0].id == node.id and isinstance(m.value, ast.Constant):
-                    return m.value
-        return None
-    for n in ast.walk(pfi.node):
-        if isinstance(n, ast.Compare) and len(n.ops) == 1 and isinstance(n.ops[0], ast.Lt) and isinstance(n.left, ast.Call) \
-                and isinstance(n.left.func, ast.Name) and n.left.func.id == 'len' and const_of(n.comparators[0]) is not None:
-            guards.append(const_of(n.comparators[0]).value)
-        if isinstance(n, ast.Subscript) and isinstance(n.slice, ast.Slice) and n.slice.upper is not None and const_of(n.slice.upper) is not None \
-                and (n.slice.lower is None or (isinstance(n.slice.lower, ast.Constant) and n.slice.lower.value == 0)):
-            par = getattr(n, '_parent', None)
-            if isinstance(par, ast.Call) and isinstance(par.func, ast.Attribute) and par.func.attr == 'join' or isinstance(par, ast.Return):
-                bounds.append(const_of(n.slice.upper).value)
-    ob = Ob('C14.b', 'PVV: the second decimalisation pass runs whenever fewer than 4 digits were found and the result is the first 4',
-            func_where(pfi), "if len(values_pass1) < 4: ...; ''.join(values_pass1[0:4])")
-    if not guards and not bounds:
-        # the decimalisation is not written as "second pass if fewer than N, then first N" any more: this sibling-constant
-        # rule has nothing to compare (documented limit, DESIGN 13d); the obligation is not counted
-        res.note('C14.b not applicable: calculate_pvv has no `len(..) < N` guard / `[0:N]` result slice to compare')
-        ob = None
-    elif not guards or not bounds:
-        ob.verdict, ob.detail = UNDECIDED, f'guard/slice constants not recognised (guards={guards}, bounds={bounds})'
-    elif guards == [4] and bounds == [4]:
-        ob.verdict, ob.detail = PROVED, 'guard constant 4 == slice bound 4'
+    from .. import scan
+    ob = Ob('C14.b', 'PVV: the result is the first four characters of (decimal digits of the hex ciphertext in order) ++ (its letters in '
+                     'order, a-f as 0-5): always four decimal digits', func_where(pfi),
+            "values_pass1 = [digits]; if len(values_pass1) < 4: values_pass1 += [str(int(v, 16) - 10) for letters]; ''.join(values_pass1[0:4])",
+            rule='C14.b.scan')
+    v = scan.analyse_decimalisation(prog, pfi)
+    ob.detail = v.detail
+    if v.status == 'proved':
+        ob.verdict = PROVED
+        res.count(evaluations=(v.facts or {}).get('cells', 0))
+    elif v.status == 'refuted':
+        ob.verdict, ob.witness = REFUTED, v.witness
     else:
-        ob.verdict, ob.detail, ob.witness = REFUTED, f'second-pass guard {guards} and result slice {bounds} do not both equal 4', \
-            {'guards': guards, 'bounds': bounds}
-    if ob is not None:
-        res.add(ob)
+        ob.verdict = UNDECIDED
+    res.add(ob)
 
     # ---- C14.c delegation
     mci = prog.cls('pinblock.VisaPVVPinBlockMixin')
